@@ -201,6 +201,39 @@ func init() {
 			st.States, st.Transitions, st.Nontrivial = st.Execs, st.Execs, st.Execs
 			st.NOutcomes = int(st.Execs)
 		}
+		// a cache dropped from the configuration and configured again later (smaller) while the server that names it
+		// stays: what the server serves from afterwards obeys the new size
+		if c.Want("recreated-smaller-through-server") && c.Shard == 0 {
+			st := c.Stat("recreated-smaller-through-server", "enumeration")
+			st.Bounds = "cache c1 of size 80 filled through the server (60 URLs), removed by one reload, configured again with size 8 by the next; then 40 URLs twice through the same server: hits in the second pass <= 8"
+			cfg := env.BasicConfig(config.CacheConfig{Size: 80})
+			e := env.New(cfg)
+			procEnv = nil
+			e.Respond = func(oc *env.OriginCall) env.OriginResp { return env.Cacheable(oc, 3600, "p") }
+			for i := 0; i < 60; i++ {
+				e.Do(env.Req{URI: fmt.Sprintf("/f%d", i), Rid: "r"})
+			}
+			cache.ResetDispatchers(nil)
+			small := cfg.Caches[0]
+			small.Size = 8
+			cache.ResetDispatchers([]config.CacheConfig{small})
+			hits := 0
+			for pass := 0; pass < 2; pass++ {
+				for i := 0; i < 40; i++ {
+					if r := e.Do(env.Req{URI: fmt.Sprintf("/s%d", i), Rid: "r"}); pass == 1 && r.XStatus == "hit" {
+						hits++
+					}
+				}
+			}
+			e.Events()
+			st.Execs = 140
+			if hits > 8 {
+				c.Violation("recreated-smaller-through-server", "hits-exceed-configured-size", fmt.Sprintf("after the cache was configured again with size 8, %d of 40 URLs requested a second time were hits", hits), nil, map[string]int{"hits": hits}, nil)
+			}
+			e.Close()
+			st.States, st.Transitions, st.Nontrivial = st.Execs, st.Execs, 1
+			st.NOutcomes = 1
+		}
 		if c.Want("resize-by-reload") && c.Shard == 0 {
 			st := c.Stat("resize-by-reload", "enumeration")
 			st.Bounds = "a cache re-configured under the same name from size S1 to S2 (S1,S2 in {3,7,100,2000}), then 4*max+64 inserts: residency <= max(S1,S2)"
